@@ -32,33 +32,61 @@ func VerifC06Listing() {
 			}
 		}
 	}
-	switch vrt.Choice("removal", 5) {
-	case 1:
-		_, err := db.MarkGarbage(vmCID(0), []oid.ID{vmOID(2)}, GarbageMarkDefault)
-		vrt.Assert(err == nil, "mark")
-		hidden[0][2] = true
-	case 2:
-		_, err := db.MarkGarbage(vmCID(0), []oid.ID{vmOID(2)}, GarbageMarkRedundant)
-		vrt.Assert(err == nil, "mark")
-		// a redundant copy stays readable (and listed) until it is physically removed
-	case 3:
-		ts := vmObj(0, 7, object.TypeTombstone, 50, 0)
-		ts.AssociateDeleted(vmOID(1))
-		vrt.Assert(db.Put(ts) == nil, "tombstone")
-		hidden[0][1] = true
-		stored[0][0] = true // the tombstone object itself is a physical object (slot 0 = id 7)
-	case 4:
-		_, err := db.InhumeContainer(vmCID(1))
-		vrt.Assert(err == nil, "container removal")
-		for o := range hidden[1] {
-			hidden[1][o] = true
+	kind := vrt.Choice("removal", 5)
+	removeNow := func() {
+		switch kind {
+		case 1:
+			_, err := db.MarkGarbage(vmCID(0), []oid.ID{vmOID(2)}, GarbageMarkDefault)
+			vrt.Assert(err == nil, "mark")
+			hidden[0][2] = true
+		case 2:
+			_, err := db.MarkGarbage(vmCID(0), []oid.ID{vmOID(2)}, GarbageMarkRedundant)
+			vrt.Assert(err == nil, "mark")
+			// a redundant copy stays readable (and listed) until it is physically removed
+		case 3:
+			ts := vmObj(0, 7, object.TypeTombstone, 50, 0)
+			ts.AssociateDeleted(vmOID(1))
+			vrt.Assert(db.Put(ts) == nil, "tombstone")
+			hidden[0][1] = true
+			stored[0][0] = true // the tombstone object itself is a physical object (slot 0 = id 7)
+		case 4:
+			_, err := db.InhumeContainer(vmCID(1))
+			vrt.Assert(err == nil, "container removal")
+			for o := range hidden[1] {
+				hidden[1][o] = true
+			}
 		}
 	}
+	// the removal happens before the listing or after some pages of it
+	removalAfterPages := 0
+	if kind != 0 {
+		removalAfterPages = vrt.Choice("removalAfterPages", 3)
+	}
+	if removalAfterPages == 0 {
+		removeNow()
+	}
 	page := vrt.IntRange("pageSize", 1, 3)
-	var seen [NC][NO + 1]int
+	var seen, seenAfterRemoval [NC][NO + 1]int
 	var cur *Cursor
+	// an arbitrary starting cursor: the listing continues strictly after it
+	startPos := -1
+	if vrt.Bool("startFromArbitraryCursor") {
+		c0 := vrt.Choice("cursorContainer", NC)
+		o0 := vrt.Choice("cursorObject", NO+2) // ids 0..3 and the tombstone's id 7
+		id := byte(o0)
+		if o0 == NO+1 {
+			id = 7
+		}
+		cur = NewCursor(vmCID(byte(c0)), vmOID(id))
+		startPos = c0*16 + int(id)
+	}
+	removed := removalAfterPages == 0
 	ended := false
 	for i := 0; i < 9; i++ {
+		if !removed && i == removalAfterPages {
+			removeNow()
+			removed = true
+		}
 		res, next, err := db.ListWithCursor(page, cur)
 		if errors.Is(err, ErrEndOfListing) {
 			ended = true
@@ -81,16 +109,37 @@ func VerifC06Listing() {
 				return
 			}
 			seen[c][o]++
+			if removed {
+				seenAfterRemoval[c][o]++
+			}
 		}
 		cur = next
 	}
 	vrt.Assert(ended, "the listing ends")
 	for c := 0; c < NC; c++ {
 		for o := 0; o <= NO; o++ {
-			if stored[c][o] && !hidden[c][o] {
-				vrt.Assert(seen[c][o] == 1, "every available physical object is listed exactly once")
-			} else {
-				vrt.Assert(seen[c][o] == 0, "objects marked for removal, objects of removed containers and absent objects are never listed")
+			id := o
+			if o == 0 {
+				id = 7
+			}
+			afterCursor := c*16+id > startPos
+			switch {
+			case !removed:
+				// the listing ended before the removal took place
+				if stored[c][o] && afterCursor && !(kind == 3 && o == 0) {
+					vrt.Assert(seen[c][o] == 1, "every available physical object is listed exactly once")
+				}
+			case stored[c][o] && !hidden[c][o] && afterCursor:
+				if removalAfterPages == 0 || !(kind == 3 && o == 0) {
+					vrt.Assert(seen[c][o] == 1, "every available physical object is listed exactly once")
+				} else {
+					vrt.Assert(seen[c][o] <= 1, "no object is listed twice")
+				}
+			case stored[c][o] && hidden[c][o] && afterCursor:
+				vrt.Assert(seenAfterRemoval[c][o] == 0, "objects marked for removal and objects of removed containers are never listed")
+				vrt.Assert(seen[c][o] <= 1, "no object is listed twice")
+			default:
+				vrt.Assert(seen[c][o] == 0, "absent objects and objects at or before the starting cursor are never listed")
 			}
 		}
 	}
